@@ -966,3 +966,32 @@ def wide_case(draw, allow_const=False, n_points=(24, 40)):
                 row.append(draw(st.sampled_from([lo, hi, hi, 0 if lo <= 0 <= hi else lo, draw(st.integers(lo, hi))])))
         pts.append(row)
     return {"model": spec, "points": pts}
+
+
+def bigm32_cases():
+    """ENUMERATED: every variable bound fits into 32 bits, but the big-M term / right hand side of a sub-proposition's row
+    (a sum of bounds plus the value) does not; points at the corners, around the threshold and around zero"""
+    L = lambda i: {"k": "leaf", "id": i, "b": [0, 1]}
+    I = lambda i, lo, hi: {"k": "leaf", "id": i, "b": [lo, hi]}
+    big = 2 ** 31 - 1
+    subs = [
+        ({"k": "AtLeast", "id": "B", "v": 1, "s": 1, "c": [I("x", -2 ** 31, big)]}, {"x": [-2 ** 31, -1, 0, 1, 2, big]}),
+        ({"k": "AtLeast", "id": "B", "v": 5, "s": 1, "c": [I("x", -2_000_000_000, 2_000_000_000), I("y", -2_000_000_000, 2_000_000_000)]},
+         {"x": [-2_000_000_000, 0, 3, 2_000_000_000], "y": [-2_000_000_000, 0, 2, 2_000_000_000]}),
+        ({"k": "AtMost", "id": "B", "v": 7, "c": [I("x", 0, big), I("y", 0, big)]}, {"x": [0, 3, 7, 8, big], "y": [0, 4, big]}),
+        ({"k": "AtLeast", "id": "B", "v": 3_000_000_000, "s": 1, "c": [I("x", 0, 2_000_000_000), I("y", 0, 2_000_000_000)]},
+         {"x": [0, 1_000_000_000, 1_500_000_000, 2_000_000_000], "y": [0, 1_500_000_000, 1_999_999_999, 2_000_000_000]}),
+        ({"k": "AtLeast", "id": "B", "v": -3_000_000_000, "s": -1, "c": [I("x", 0, 2_000_000_000), I("y", 0, 2_000_000_000)]},
+         {"x": [0, 1_000_000_000, 1_500_000_000, 2_000_000_000], "y": [0, 1_500_000_000, 1_500_000_001, 2_000_000_000]}),
+    ]
+    import itertools
+    for sub, vals in subs:
+        for top in ("All", "Any", "Imply"):
+            if top == "Imply":
+                spec = {"k": "Imply", "id": "A", "c": [L("z"), sub]}
+            else:
+                spec = {"k": top, "id": "A", "c": [sub, L("z")]}
+            ids = sorted(list(vals) + ["z"])
+            grid = dict(vals, z=[0, 1])
+            pts = [list(p) for p in itertools.product(*[grid[i] for i in ids])]
+            yield {"model": spec, "points": pts}
